@@ -50,6 +50,8 @@ type printer struct {
 	quote    int // 0 random per literal, 1 double, 2 single
 	escPct   int
 	emptyPct int // chance of an empty gap where one is allowed
+	// orphanPct: percent chance, per token, of an orphaned docstring in the gap before it
+	orphanPct int
 }
 
 func newPrinter(t *rapid.T, avoid map[string]bool) *printer {
@@ -59,6 +61,7 @@ func newPrinter(t *rapid.T, avoid map[string]bool) *printer {
 	p.quote = weighted(t, "quote_style", 60, 20, 20)
 	p.escPct = rapid.SampledFrom([]int{0, 10, 40, 90}).Draw(t, "esc_pct")
 	p.emptyPct = rapid.SampledFrom([]int{0, 20, 70}).Draw(t, "empty_pct")
+	p.orphanPct = rapid.SampledFrom([]int{0, 0, 0, 3}).Draw(t, "orphan_pct")
 	return p
 }
 
@@ -197,9 +200,76 @@ var docTexts = []string{"foo", "Foo does stuff.", "bar baz", "x", "returns 1 * 2
 
 var docGaps = []string{"", " ", "\n", "\n", "\n  ", "\n\t", "\r\n", " // c\n", " # c\n", " /* c */ ", "\n\n", "\n  \n  ", "\n// c\n", " /* a\n b */\n", "\n/* c */"}
 
+// noBodyDoc draws a docstring that has no body at all: nothing, blanks, blank lines, lines
+// holding only the gutter " *", in any mixture. By the documented rule (the text between the
+// markers without gutters and indentation) its content is the empty string. The four-byte
+// text "/**/" cannot come out of this (that is the empty block COMMENT of known finding N1):
+// everything here is "/**" + something + "*/".
+func (p *printer) noBodyDoc() (text, shape string) {
+	t := p.t
+	ind := rapid.SampledFrom(indents).Draw(t, "doc_ind")
+	eol := "\n"
+	if chance(t, "doc_crlf", 8) {
+		eol = "\r\n"
+	}
+	closing := func() string {
+		switch weighted(t, "doc_close", 40, 40, 20) {
+		case 0:
+			return "*/"
+		case 1:
+			return " */"
+		default:
+			return ind + " */"
+		}
+	}
+	switch weighted(t, "doc_nobody", 20, 30, 20, 15, 15) {
+	case 0:
+		// /***/  /** */  /**\t*/
+		return "/**" + rapid.SampledFrom([]string{"", " ", "  ", "\t", " \t ", "   "}).Draw(t, "doc_pad") + "*/", "no-body/single-line"
+	case 1:
+		// /**\n*/  /**\n */  /**\n\n*/  /** \n\n\n */
+		return "/**" + rapid.SampledFrom([]string{"", "", " ", "\t"}).Draw(t, "doc_pad") +
+			strings.Repeat(eol, weighted(t, "doc_nl", 50, 30, 20)+1) + closing(), "no-body/multi-line-empty"
+	case 2:
+		// /**\n *\n */  /**\n * \n * \n */  /**\n*\n*/
+		var sb strings.Builder
+		sb.WriteString("/**" + eol)
+		g := rapid.SampledFrom([]string{" *", " *", "*", ind + " *"}).Draw(t, "doc_gutter")
+		for i, n := 0, weighted(t, "doc_lines", 45, 35, 20)+1; i < n; i++ {
+			sb.WriteString(g + rapid.SampledFrom([]string{"", "", " ", "  ", "\t"}).Draw(t, "doc_gsp") + eol)
+		}
+		sb.WriteString(closing())
+		return sb.String(), "no-body/gutter-only"
+	case 3:
+		// /**\n   \n */
+		var sb strings.Builder
+		sb.WriteString("/**" + eol)
+		for i, n := 0, weighted(t, "doc_lines", 45, 35, 20)+1; i < n; i++ {
+			sb.WriteString(rapid.SampledFrom([]string{" ", "   ", "\t", " \t", "      "}).Draw(t, "doc_ws") + eol)
+		}
+		sb.WriteString(closing())
+		return sb.String(), "no-body/whitespace-only"
+	default:
+		var sb strings.Builder
+		sb.WriteString("/**" + rapid.SampledFrom([]string{"", "", " "}).Draw(t, "doc_pad") + eol)
+		// one gutter per docstring (the documented form: every line starts with the same " *")
+		g := rapid.SampledFrom([]string{" *", " *", "*", ind + " *"}).Draw(t, "doc_gutter")
+		for i, n := 0, weighted(t, "doc_lines", 20, 30, 30, 20)+1; i < n; i++ {
+			sb.WriteString(rapid.SampledFrom([]string{"", "", g, g + " ", g, "  ", "\t", ind}).Draw(t, "doc_mixed") + eol)
+		}
+		sb.WriteString(closing())
+		return sb.String(), "no-body/mixed"
+	}
+}
+
 func (p *printer) renderDoc(d *MDoc) string {
 	t := p.t
-	switch weighted(t, "doc_shape", 40, 40, 20) {
+	switch weighted(t, "doc_shape", 40, 40, 20, 14) {
+	case 3:
+		var text string
+		text, d.Shape = p.noBodyDoc()
+		d.Want = ""
+		return text
 	case 0:
 		d.Shape = "single"
 		text := ""
@@ -290,6 +360,11 @@ func (p *printer) tok(text string, cls int, kw bool) *Tok {
 	if p.pending != nil {
 		doc, p.pending = p.pending, nil
 		p.emitGap(p.gapText(need))
+		if chance(p.t, "doc_orphan_before", 6) {
+			// an orphaned docstring directly in front of the node's own one: the later one counts
+			p.feat["docstring:orphan-before-docstring"] = true
+			p.emitGap(p.renderDoc(&MDoc{}) + rapid.SampledFrom([]string{"", " ", "\n", "\n\n", " /* c */ ", "\n  "}).Draw(p.t, "doc_orphan_gap"))
+		}
 		p.write(p.renderDoc(doc))
 		p.feat["layout:docstring"] = true
 		p.feat["docstring:"+doc.Shape] = true
@@ -301,6 +376,12 @@ func (p *printer) tok(text string, cls int, kw bool) *Tok {
 			p.feat["docstring:detached"] = true
 		}
 		p.emitGap(g)
+	} else if p.orphanPct > 0 && chance(p.t, "doc_orphan", p.orphanPct) {
+		// an orphaned docstring between two tokens, two or more newlines away from whatever
+		// follows: it documents nothing (a node takes the docstring that ends at most one
+		// line above its first token)
+		p.feat["docstring:orphan"] = true
+		p.emitGap(p.gapText(need) + p.renderDoc(&MDoc{}) + rapid.SampledFrom([]string{"\n\n", "\n\n", "\n \n\t", "\r\n\r\n", "\n// c\n", "\n\n\n  "}).Draw(p.t, "doc_orphan_gap"))
 	} else if p.prev != clsNone || chance(p.t, "gap_first", 50) {
 		p.emitGap(p.gapText(need))
 	}
@@ -795,6 +876,11 @@ func (p *printer) program(m *MProg) string {
 		p.emitGap(p.gapText(false))
 	} else {
 		p.emitGap("")
+	}
+	if chance(p.t, "doc_orphan_end", 6) {
+		// an orphaned docstring at the very end of the document
+		p.feat["docstring:orphan-at-end"] = true
+		p.emitGap(p.renderDoc(&MDoc{}) + rapid.SampledFrom([]string{"", "\n", " ", "\n\n"}).Draw(p.t, "doc_orphan_gap"))
 	}
 	return string(p.b)
 }
